@@ -133,6 +133,7 @@ def check(run):
     from . import c18_sweep
     tmpd = tempfile.mkdtemp(prefix='verif_c18_', dir=run.tmp)
     sweep_jobs = c18_sweep.generate(run, tmpd)
+    sweep_jobs += c18_sweep.geometry_jobs(run, tmpd)
     jobs += sweep_jobs
     with Pool(min(16, core.NPROC)) as pool:
         results = pool.map(_one, jobs, chunksize=4)
